@@ -941,10 +941,49 @@ namespace bloch::runtime {
             rc->isAbstract = clsNode->isAbstract;
             m_classTable[rc->name] = rc;
         }
-        // populate members
-        for (auto& clsNode : program.classes) {
-            if (!clsNode || !clsNode->typeParameters.empty())
-                continue;  // generic templates handled lazily
+        // populate members. A class copies the field layout and dispatch table of its base,
+        // so a base is populated before the classes derived from it, whatever the order of
+        // declaration (generic templates are handled lazily).
+        std::vector<compiler::ClassDeclaration*> populateOrder;
+        {
+            std::unordered_map<std::string, compiler::ClassDeclaration*> pending;
+            for (auto& clsNode : program.classes) {
+                if (clsNode && clsNode->typeParameters.empty())
+                    pending.emplace(clsNode->name, clsNode.get());
+            }
+            auto declaredBase = [](const compiler::ClassDeclaration* node) -> std::string {
+                if (auto named = dynamic_cast<NamedType*>(node->baseType.get())) {
+                    if (named->typeArguments.empty() && !named->nameParts.empty())
+                        return named->nameParts.back();
+                    return "";
+                }
+                return node->baseName.empty() ? "" : node->baseName.back();
+            };
+            bool progress = true;
+            while (!pending.empty() && progress) {
+                progress = false;
+                for (auto& clsNode : program.classes) {
+                    if (!clsNode || !clsNode->typeParameters.empty())
+                        continue;
+                    auto it = pending.find(clsNode->name);
+                    if (it == pending.end() || it->second != clsNode.get())
+                        continue;
+                    std::string base = declaredBase(clsNode.get());
+                    if (base != clsNode->name && pending.count(base))
+                        continue;  // its base comes first
+                    populateOrder.push_back(clsNode.get());
+                    pending.erase(it);
+                    progress = true;
+                }
+            }
+            // anything left inherits from itself through a cycle, which the analyser rejects
+            for (auto& clsNode : program.classes) {
+                auto it = clsNode ? pending.find(clsNode->name) : pending.end();
+                if (it != pending.end() && it->second == clsNode.get())
+                    populateOrder.push_back(clsNode.get());
+            }
+        }
+        for (compiler::ClassDeclaration* clsNode : populateOrder) {
             RuntimeClass* rc = findClass(clsNode->name);
             if (!rc)
                 continue;
